@@ -24,7 +24,7 @@ def values(maxlen):
     for k in range(5, 11 if maxlen <= 3 else 15):
         for L in (2 ** k - 1, 2 ** k, 2 ** k + 1):
             out.append((unit * (L // len(unit) + 1))[:L].rstrip())
-    return out + ["user@example.org", "INBOX.Lists, misc", "a, b", "[x]", "x]y[", "été,hiver"]
+    return out + ["user@example.org", "INBOX.Lists, misc", "a, b", "[x]", "x]y[", "été,hiver", "text: see attachment", "text:\nhello\n.\n", "Text:x"]
 
 
 COND_FORMS = [
